@@ -20,6 +20,12 @@ HOT = [
 scalar_chars = st.characters(exclude_categories=["Cs"])
 
 
+def opaque(strategy):
+    """Keeps Hypothesis from flattening a one_of into an enclosing one_of (which would distort the
+    branch probabilities: one_of(.).map is itself flattened, st.builds is not)."""
+    return st.builds(lambda x: x, strategy)
+
+
 def hot_text(max_parts: int = 8):
     return st.lists(st.sampled_from(HOT), max_size=max_parts).map("".join)
 
@@ -90,3 +96,120 @@ def norm_attr_name(x: str) -> str:
     if x.endswith("_"):
         x = x[:-1]
     return x.replace("_", "-")
+
+
+# ---------------------------------------------------------------------------------
+# layout trees (C05 / C06 / C07): block/inline/void tags, text, HTML(), _repr_html_
+# objects and metadata; every visible node carries a unique id after number().
+# ---------------------------------------------------------------------------------
+
+LAYOUT_TEXT_ALPHA = "abcxyz019_.,:!\xe9"
+
+
+def layout_leaf(newlines: bool = False, meta: bool = True, spaces: bool = False):
+    alpha = LAYOUT_TEXT_ALPHA + ("\n" if newlines else "") + (" " if spaces else "")
+    txt = st.text(alphabet=alpha, max_size=5)
+    leaves = [
+        st.builds(lambda s: {"k": "text", "s": s}, txt),
+        st.builds(lambda s: {"k": "text", "s": s}, txt),
+        st.builds(lambda s: {"k": "html", "s": "<i>" + s + "</i>"}, txt),
+        st.builds(lambda s: {"k": "html", "s": s}, txt),
+        st.builds(lambda s: {"k": "repr", "s": "<u>" + s + "</u>"}, txt),
+    ]
+    for _ in range(int(meta)):
+        leaves.append(
+            st.sampled_from(
+                [
+                    {"k": "meta"},
+                    {"k": "dep", "name": "d1", "version": "1.0"},
+                    {"k": "dep", "name": "d1", "version": "1.10"},
+                    {"k": "dep", "name": "d1", "version": "1.9", "script": [{"src": "a.js"}]},
+                    {"k": "dep", "name": "d2", "version": "2.1", "head": "<title>h</title>"},
+                    {"k": "headc", "kids": [{"k": "text", "s": "hc"}]},
+                ]
+            )
+        )
+    return opaque(st.one_of(*leaves))
+
+
+def layout_tag(children, max_kids: int = 5):
+    kind = st.sampled_from(["block", "block", "inline", "inline", "void-block", "void-inline", "odd"])
+
+    def mk(kind, bi, ii, vi, kids, attr):
+        if kind == "block":
+            name, ws = BLOCK_NAMES[bi % len(BLOCK_NAMES)], True
+        elif kind == "inline":
+            name, ws = INLINE_NAMES[ii % len(INLINE_NAMES)], False
+        elif kind.startswith("void"):
+            name, ws = VOID[vi % len(VOID)], kind == "void-block"
+            if vi % 2:
+                kids = [k for k in kids if k["k"] in ("meta", "dep", "headc")]
+        else:
+            # name and flag disagree / raw-text names with plain content
+            name, ws = (["span", "div", "script", "style", "pre", "x-y"][bi % 6], bool(ii % 2))
+        attrs = [["class", "c" + str(attr)]] if attr else []
+        return {"k": "tag", "name": name, "ws": ws, "attrs": attrs, "kids": kids}
+
+    return st.builds(
+        mk,
+        kind,
+        st.integers(0, 50),
+        st.integers(0, 50),
+        st.integers(0, 50),
+        st.one_of(st.lists(children, min_size=2, max_size=max_kids), st.lists(children, min_size=1, max_size=max_kids), st.lists(children, max_size=2)),
+        st.integers(0, 2),
+    )
+
+
+def layout_tree(newlines: bool = False, meta: bool = True, depth: int = 3, spaces: bool = False, max_kids: int = 4):
+    """Explicit levels instead of st.recursive, so that nested shapes are frequent."""
+    leaf = layout_leaf(newlines, meta, spaces)
+    node = leaf
+    for _ in range(depth):
+        node = st.one_of(leaf, layout_tag(node, max_kids), layout_tag(node, max_kids))
+    return layout_tag(node, max_kids)
+
+
+def layout_forest(newlines: bool = False, meta: bool = True, max_roots: int = 3, spaces: bool = False, depth: int = 2):
+    return st.lists(
+        st.one_of(layout_tree(newlines, meta, depth, spaces), layout_tree(newlines, meta, depth, spaces), layout_leaf(newlines, meta, spaces)),
+        min_size=0,
+        max_size=max_roots,
+    )
+
+
+def make_valid(n, inside_inline: bool = False):
+    """Force valid nesting: no whitespace-enabled tag below an inline tag."""
+    if n["k"] != "tag":
+        return n
+    ws = n["ws"] and not inside_inline
+    return dict(n, ws=ws, kids=[make_valid(k, inside_inline or not ws) for k in n["kids"]])
+
+
+def number(nodes, counter=None):
+    """Give every visible node a unique id: data-n on tags, 't<k>:' prefix in leaves."""
+    if counter is None:
+        counter = [0]
+    out = []
+    for n in nodes:
+        k = n["k"]
+        if k == "tag":
+            i = counter[0]
+            counter[0] += 1
+            kids = number(n["kids"], counter)
+            out.append(dict(n, attrs=[["data-n", str(i)]] + list(n.get("attrs", [])), kids=kids, id=i))
+        elif k == "text":
+            i = counter[0]
+            counter[0] += 1
+            out.append(dict(n, s="t%d:" % i + n["s"], id=i))
+        elif k == "html":
+            i = counter[0]
+            counter[0] += 1
+            out.append(dict(n, s="h%d:" % i + n["s"], id=i))
+        elif k == "repr":
+            i = counter[0]
+            counter[0] += 1
+            out.append(dict(n, s="r%d:" % i + n["s"], id=i))
+        else:
+            out.append(n)
+    return out
